@@ -126,10 +126,8 @@ def real_rule(s1, s2):
 def rule_sweep(ctx, corr):
     rng = ctx.rng
     N = 3
-    gates = placed_gates(N)
+    gates = placed_gates(N) if ctx.thorough else placed_gates(N, angles=(0.5,))
     pairs = [(a, b) for a in gates for b in gates if set(S.spec_qubits(a)) & set(S.spec_qubits(b))]
-    if not ctx.thorough:
-        pairs = rng.sample(pairs, 2500)
     # 4-qubit FREDKIN/TOFFOLI pairs (overlapping targets need 4 qubits for distinct pairs)
     g4 = [g for g in placed_gates(4, angles=(0.5,)) if g["name"] in ("FREDKIN", "TOFFOLI")]
     pairs += [(a, b) for a in g4 for b in g4 if a["name"] == b["name"]]
@@ -210,11 +208,11 @@ def correspond(ctx):
     corr = Corr(rule="at least two gates share a qubit; rule pairs always count")
     rng = ctx.rng
     exact = [("corpus", i) for i in S.load_corpus("C05") if i.get("mode") != "rule"]
-    for _ in range(ctx.n(500, 4000)):
+    for _ in range(ctx.n(1200, 5000)):
         exact.append(("random<=8", gen_gate_input(rng, 8)))
-    for _ in range(ctx.n(150, 1000)):
+    for _ in range(ctx.n(400, 1500)):
         exact.append(("cnot-x-z", gen_gate_input(rng, 8, N=rng.choice([2, 3]), kinds=["CNOT", "CNOT", "X", "RX", "Z", "RZ", "SNOT"])))
-    for _ in range(ctx.n(150, 1000)):
+    for _ in range(ctx.n(400, 1500)):
         exact.append(("same-name-heavy", gen_gate_input(rng, 7, N=rng.choice([3, 4]), kinds=["R", "R", "QASMU", "MS", "FREDKIN", "FREDKIN", "TOFFOLI", "CRX", "CNOT", "RX", "SWAP"])))
     for _ in range(ctx.n(60, 300)):
         inp = gen_gate_input(rng, 6)
@@ -246,7 +244,7 @@ def correspond(ctx):
 
     # oracle-only: longer circuits, exhaustive sweeps
     n_oracle = 0
-    stream = [gen_gate_input(rng, 14) for _ in range(ctx.n(400, 3000))]
+    stream = [gen_gate_input(rng, 14) for _ in range(ctx.n(800, 4000))]
     if ctx.thorough:
         stream += list(exhaustive(3, reduced_alphabet()[::2]))
         stream += [i for i in exhaustive(2, placed_gates(3)) if len(i["instrs"]) == 2 and i["method"] == "ALAP"][::3]
